@@ -163,6 +163,18 @@ def directed_adagrid_targets(res, r, seed):
         one_pair(res, 'adagrid', dom, rows, rows[:-1], params, seed, 'directed')
 
 
+def directed_mwem_alpha(res, r, seed):
+    """`alpha` is the share of each round's budget that goes to the measurement; the rest pays the selection.  Every value the
+    mechanism ACCEPTS must keep the total within the budget (a share above 1 would pay alpha*eps for the Laplace releases alone)"""
+    dom = DOMS[1]
+    rows = gen_rows(r, dom, 60)
+    rows2 = neighbour(r, dom, rows, False, True)
+    for alpha in (1.0, 1.5, 3.0):
+        for noise in ('laplace', 'gaussian'):
+            params = {'epsilon': 1.0, 'delta': 1e-6, 'rounds': 2, 'workload': [['a', 'b'], ['b', 'c'], ['c', 'd']], 'noise': noise, 'bounded': False, 'alpha': alpha}
+            one_pair(res, 'mwem', dom, rows, rows2, params, seed * 1000 + 700, 'directed-alpha')
+
+
 def directed_aim(res, r, seed):
     """AIM's selection sensitivity is the largest weight among the CURRENT candidates of the CURRENT run: (i) a call history on one
     mechanism object (a light workload first, then all pairs), (ii) a size limit that binds, so that the candidate set grows from round
@@ -296,6 +308,7 @@ def run(res, drv, tier, seed):
     directed_mwem_bounded(res, seed)
     directed_adagrid_targets(res, r, seed)
     directed_aim(res, rng(seed, 'C05-aim'), seed)
+    directed_mwem_alpha(res, rng(seed, 'C05-alpha'), seed)
     adagrid_queries(res, drv, r, seed, tier)
     # the region excluded by aim_budget's hypothesis, on the real code
     dom = DOMS[1]
